@@ -31,8 +31,16 @@ DIALECTS = {
     "8051": dict(cpu="8051", gran=1, data="db", res="ds", bits=8, segs=["code", "xdata"], lim=0x10000),
     "c25": dict(cpu="320c25", gran=2, data="word", res="res", bits=16, segs=["code", "data"], lim=0x10000),
     "c30": dict(cpu="320c30", gran=4, data="word", res="bss", bits=32, segs=["code"], lim=0x100000),
+    # mixed granularity: CODE counts words, DATA counts bytes (the record header carries the segment's own one)
+    "pic": dict(cpu="16c877", gran=2, data="data", res="res", bits=14, segs=["code", "data"], lim=0x2000,
+                sgran={"data": 1}),
 }
 SEGNO = {"code": 1, "data": 2, "xdata": 4}
+
+
+def seg_gran(d, seg):
+    return d.get("sgran", {}).get(seg, d["gran"])
+
 
 
 def unit_value(k, i, bits):
@@ -63,12 +71,13 @@ def render(beh, cpu_stmt=True):
             for rep in range(st["count"]):
                 n = st["n"]
                 kk = k * 100 + rep
-                vals = [unit_value(kk, i, d["bits"]) for i in range(n)]
+                g = seg_gran(d, st["seg"])
+                vals = [unit_value(kk, i, d["bits"] if g == d["gran"] else 8 * g) for i in range(n)]
                 lines.append("\t%s %s" % (d["data"], ",".join(str(v) for v in vals)))
-                base = (st["addr"] + rep * n) * d["gran"]
+                base = (st["addr"] + rep * n) * g
                 for i, v in enumerate(vals):
-                    for j, b in enumerate(unit_bytes(v, d["gran"])):
-                        exp.append((SEGNO[st["seg"]], base + i * d["gran"] + j, b))
+                    for j, b in enumerate(unit_bytes(v, g)):
+                        exp.append((SEGNO[st["seg"]], base + i * g + j, b))
         elif a == "PAR":
             lines.append("\tabsf *ar4++,r6")
             lines.append("||\tstf r6,*ar5++")
